@@ -60,5 +60,10 @@ func (r *DecoratorResolver) ResolveIdent(file *ast.File, parent ast.Node, parent
 		return "", nil
 	}
 
+	if obj.Parent() != nil && obj.Parent() != pkg.Scope() {
+		// declared inside a function (variable, parameter, type parameter etc.) -> never qualified
+		return "", nil
+	}
+
 	return pkg.Path(), nil
 }
